@@ -1,42 +1,275 @@
-"""C15 — split timing rule (engine xh over the enumerated configuration space)."""
-from vlib import xhprop
+"""C15 — split timing: chart timing is used all-or-nothing under one rule (engine symx).
+
+The emptiness of each of the eleven chart timing properties is a solver variable: the chart holds, for every property
+that is present, a string object whose truth value is decided by z3 (TStr), so the rule's any() over the properties is
+explored symbolically (all 2^11 empty/non-empty vectors in a dozen paths); which properties are absent altogether,
+the simfile/chart kinds, the version and the OFFSET/DISPLAYBPM classes are solver-guided case splits.
+(A first CrossHair version of this harness did not finish: every path re-parses the timing strings under tracing.)"""
+from fractions import Fraction
 
 PROP = "C15"
-FILE = "xh_C15.py"
-FUNCTIONS = ["simfile.timing._private.timingsource.timing_source", "TimingData.__init__", "simfile.timing.displaybpm.displaybpm", "BeatValues.from_str (concrete strings)"]
-ASSUMPTIONS = ["values are concrete and distinct per source so that mixing is observable; numeric parsing (float(), Decimal()) runs on concrete representatives",
-               "configuration variables (kinds, version index, the eleven property states, OFFSET/DISPLAYBPM states, ignore_specified) are symbolic integers/booleans"]
-OUTSIDE = ["arbitrary numeric spellings of versions and BPM values (representatives only)", "displayed BPM when the chosen source has no BPMS (excluded by the property)"]
+MODS = ("simfile.timing", "simfile.timing.displaybpm", "simfile.timing._private.timingsource", "simfile.sm", "simfile.ssc")
+FUNCTIONS = ["simfile.timing._private.timingsource.timing_source", "TimingData.__init__", "simfile.timing.displaybpm.displaybpm", "BeatValues.from_str",
+             "item_property getters of SSCChart (CHART_TIMING_PROPERTIES)"]
+ASSUMPTIONS = [
+    "truth value (empty / non-empty) of every present chart timing property is a z3 Bool; absence is a structural case split (none absent, all absent, exactly one present, one absent)",
+    "values are concrete and distinct per source so that mixing is observable; versions from {absent, '', 0.69, 0.7, 0.70, 0.83, 1.0}; 8 DISPLAYBPM classes",
+    "Decimal/Fraction/float are the symx stand-ins (concrete values here)",
+]
+OUTSIDE = ["arbitrary numeric spellings of versions and BPM values (representatives only)", "displayed BPM when the chosen source has no BPMS (excluded by the property)",
+           "absence patterns other than none / all / exactly-one-present / exactly-one-absent"]
+
+VERSIONS = [None, "", "0.69", "0.7", "0.70", "0.83", "1.0"]
+SPLIT_OK = [False, False, False, True, True, True, True]
+TIMING_KEYS = ["BPMS", "STOPS", "DELAYS", "TIMESIGNATURES", "TICKCOUNTS", "COMBOS", "WARPS", "SPEEDS", "SCROLLS", "FAKES", "LABELS"]
+SF_VALS = {"BPMS": "0.000=100.000,\n4.000=150.000", "STOPS": "1.000=0.100", "DELAYS": "2.000=0.200", "WARPS": "3.000=1.000", "OFFSET": "0.100"}
+CH_VALS = {"BPMS": "0.000=200.000", "STOPS": "5.000=0.500", "DELAYS": "6.000=0.600", "WARPS": "7.000=2.000", "OFFSET": "-0.700",
+           "TIMESIGNATURES": "0.000=3=4", "TICKCOUNTS": "0.000=2", "COMBOS": "0.000=2", "SPEEDS": "0.000=2.000=0.000=0", "SCROLLS": "0.000=2.000",
+           "FAKES": "1.000=1.000", "LABELS": "0.000=x"}
+DBPM = [None, "", "120", "100:200", "*", "abc", "1:x", " 90 "]
+ABSENCE = ["none-absent", "all-absent", "one-present", "one-absent"]
+
+
+def _setup():
+    from vlib import symx
+    return symx, symx.load_shimmed(MODS)
+
+
+def _tstr(symx, text, cond):
+    """a str whose truth value is the z3 Bool `cond` (content is only read by the code when it is truthy)"""
+    class TStr(str):
+        def __bool__(self):
+            return symx.CTL.branch(cond)
+
+        def strip(self, *a):
+            return self  # keeps the symbolic truth value through `string and string.strip()`
+    return TStr(text)
+
+
+def _build(symx, mods, absence, j):
+    import z3
+    SM, SSC = mods["simfile.sm"], mods["simfile.ssc"]
+    ssc = symx.choose("ssc", 2) == 1
+    vi = symx.choose("vi", len(VERSIONS)) if ssc else 0
+    ck = symx.choose("ck", 3)
+    sf = SSC.SSCSimfile(string="") if ssc else SM.SMSimfile(string="")
+    if ssc and VERSIONS[vi] is not None:
+        sf["VERSION"] = VERSIONS[vi]
+    for k in ("BPMS", "STOPS", "DELAYS", "WARPS"):
+        sf[k] = SF_VALS[k]
+    so = symx.choose("so", 3)
+    if so:
+        sf["OFFSET"] = "" if so == 1 else SF_VALS["OFFSET"]
+    chart, ne, co = None, {}, 0
+    if ck == 1:
+        chart = SM.SMChart.blank()
+    elif ck == 2:
+        chart = SSC.SSCChart()
+        chart["STEPSTYPE"] = "dance-single"
+        for i, key in enumerate(TIMING_KEYS):
+            present = {"none-absent": True, "all-absent": False, "one-present": i == j, "one-absent": i != j}[absence]
+            if present:
+                ne[key] = z3.Bool("ne_" + key)
+                chart[key] = _tstr(symx, CH_VALS[key], ne[key])
+        co = symx.choose("co", 3)
+        if co:
+            chart["OFFSET"] = "" if co == 1 else CH_VALS["OFFSET"]
+        chart["NOTES"] = "0000"
+    return ssc, vi, ck, sf, chart, ne, so, co
+
+
+def _oracle_use(ssc, vi, ck, ne):
+    import z3
+    if not (ssc and ck == 2 and SPLIT_OK[vi]):
+        return z3.BoolVal(False)
+    return z3.Or(*ne.values()) if ne else z3.BoolVal(False)
+
+
+def ob_source(absence, j, budget_s=120):
+    """timing_source returns the chart exactly under the documented rule, and TimingData reads every field and the
+    offset from that one source"""
+    import z3
+    symx, mods = _setup()
+    T = mods["simfile.timing"]; TS = mods["simfile.timing._private.timingsource"]
+
+    def run():
+        ssc, vi, ck, sf, chart, ne, so, co = _build(symx, mods, absence, j)
+        src = TS.timing_source(sf, chart)
+        if src is not sf and src is not chart:
+            return False, ("source is neither object",)
+        use = _oracle_use(ssc, vi, ck, ne)
+        if src is chart and chart is not None:
+            if not symx.CTL.branch(use):
+                return False, ("chart used against the rule", ssc, VERSIONS[vi], ck)
+        else:
+            if symx.CTL.branch(use):
+                return False, ("chart not used although the rule says so", ssc, VERSIONS[vi], ck)
+        td = T.TimingData(sf, chart)
+        vals = CH_VALS if src is chart else SF_VALS
+        for key in ("BPMS", "STOPS", "DELAYS", "WARPS"):
+            got = list(getattr(td, key.lower()))
+            if key in src and bool(src[key]):
+                want = list(T.BeatValues.from_str(vals[key]))
+            else:
+                want = []
+            if got != want:
+                return False, ("field", key, str(got), str(want), "source is chart" if src is chart else "source is simfile")
+        st = co if src is chart else so
+        want_off = symx.DecShim(vals["OFFSET"]) if st == 2 else symx.DecShim(0)
+        if not (td.offset == want_off):
+            return False, ("offset", str(td.offset), str(want_off))
+        return True, ("source", absence, j)
+    return symx.explore(run, budget_s=budget_s)
+
+
+def _expected_display(symx, T, D, get, bpms_text, ignore):
+    v = get("DISPLAYBPM")
+    if v is not None and not ignore:
+        if v == "*":
+            return D.RandomDisplayBPM()
+        try:
+            if ":" in v:
+                a, _, b = v.partition(":")
+                return D.RangeDisplayBPM(min=symx.DecShim(a), max=symx.DecShim(b))
+            return D.StaticDisplayBPM(value=symx.DecShim(v))
+        except Exception:
+            pass
+    bpms = [e.value for e in T.BeatValues.from_str(bpms_text)]
+    if len(bpms) == 1:
+        return D.StaticDisplayBPM(bpms[0])
+    return D.RangeDisplayBPM(min=min(bpms), max=max(bpms))
+
+
+def ob_display(absence, j, budget_s=120):
+    """displaybpm comes from the same source: its DISPLAYBPM when present, well-formed and not ignored, else min/max of its BPMS"""
+    import z3
+    symx, mods = _setup()
+    T = mods["simfile.timing"]; D = mods["simfile.timing.displaybpm"]; SSC = mods["simfile.ssc"]
+
+    def run():
+        ssc, vi, ck, sf, chart, ne, so, co = _build(symx, mods, absence, j)
+        sd = symx.choose("sd", len(DBPM)); cd = symx.choose("cd", len(DBPM)) if ck == 2 else 0
+        ignore = symx.choose("ignore", 2) == 1
+        if DBPM[sd] is not None:
+            sf["DISPLAYBPM"] = DBPM[sd]
+        if ck == 2 and DBPM[cd] is not None:
+            chart["DISPLAYBPM"] = DBPM[cd]
+        use = symx.CTL.branch(_oracle_use(ssc, vi, ck, ne))
+        if use:
+            # domain of the displayed-BPM clause: the chosen source has a non-empty BPMS
+            if "BPMS" not in ne:
+                raise symx.Prune()
+            symx.CTL.assume(ne["BPMS"])
+            symx.require_feasible()
+        if ck == 0:
+            got = D.displaybpm(sf, ignore_specified=ignore) if symx.choose("noarg", 2) else D.displaybpm(sf, SSC.SSCChart(), ignore_specified=ignore)
+        else:
+            got = D.displaybpm(sf, chart, ignore_specified=ignore)
+        src = chart if use else sf
+        exp = _expected_display(symx, T, D, src.get, (CH_VALS if use else SF_VALS)["BPMS"], ignore)
+        if type(got) is not type(exp) or not (got == exp):
+            return False, ("displaybpm", str(got), str(exp), "chart" if use else "simfile", DBPM[sd], DBPM[cd], ignore)
+        return True, ("display", absence, j)
+    return symx.explore(run, budget_s=budget_s)
 
 
 def obligations(tier):
-    T = 120 if tier == "quick" else 900
     obs = []
-    for ssc in (False, True):
-        for ck in range(3):
-            if ssc and ck == 2:
-                for vi in range(7):
-                    obs.append(dict(name=f"timing[ssc,chart=ssc,version{vi}]", func="timing", pre=f"ssc and ck == 2 and vi == {vi}", timeout=T,
-                                    bounds="3^11 chart timing property states x OFFSET states x simfile BPMS state"))
-            else:
-                obs.append(dict(name=f"timing[ssc={ssc},chart={ck}]", func="timing", pre=f"ssc == {ssc} and ck == {ck}" + (" and s0 == s1 == s2 == s3 == s4 == s5 == s6 == s7 == s8 == s9 == s10 == 0" if ck != 2 else ""), timeout=T,
-                                bounds="version index symbolic; chart property states irrelevant unless the chart is an SSC chart"))
-    for ssc in (False, True):
-        for ck in range(3):
-            obs.append(dict(name=f"display[ssc={ssc},chart={ck}]", func="display", pre=f"ssc == {ssc} and ck == {ck}", timeout=T,
-                            bounds="version index, one chart timing property in 3 states, 8 DISPLAYBPM classes on either side, ignore_specified"))
+    b = 300 if tier == "quick" else 3000
+    for f in ("ob_source", "ob_display"):
+        for ab in ("none-absent", "all-absent"):
+            obs.append(dict(name=f"{f[3:]}[{ab}]", func=f, args=(ab, 0), budget_s=b,
+                            bounds="kinds x 7 versions x chart kinds x OFFSET states" + (" x 8x8 DISPLAYBPM classes x ignore_specified" if f == "ob_display" else "") + "; emptiness of the present chart timing properties symbolic (2^11)"))
+        for ab in ("one-present", "one-absent"):
+            for j in (range(11) if (tier != "quick" or f == "ob_source") else (0, 1, 6, 10)):
+                obs.append(dict(name=f"{f[3:]}[{ab} {TIMING_KEYS[j]}]", func=f, args=(ab, j), budget_s=b, bounds="as above with exactly one property present / absent"))
     return obs
 
 
 def signature(ob, res):
-    return ob["func"]
+    return ob["func"] + ":" + str(res.get("info"))[:50]
 
 
 def replay(data):
-    from vlib import xh
-    return xh.replay("xh_C15", data)
+    """concrete re-run on the real classes: the model fixes the case splits and the ne_* truth values"""
+    import simfile
+    from decimal import Decimal
+    from simfile.sm import SMSimfile, SMChart
+    from simfile.ssc import SSCSimfile, SSCChart
+    from simfile.timing import TimingData, BeatValues
+    from simfile.timing.displaybpm import displaybpm, StaticDisplayBPM, RangeDisplayBPM, RandomDisplayBPM
+    from simfile.timing._private.timingsource import timing_source
+    m = data["model"] or {}
+    absence, j = data["args"]
+    gi = lambda k, d=0: int(Fraction(m.get(k, str(d))))
+    gb = lambda k: str(m.get(k, "False")) in ("True", "1")
+    ssc = gi("ssc") == 1; vi = gi("vi") if ssc else 0; ck = gi("ck")
+    sf = SSCSimfile(string="") if ssc else SMSimfile(string="")
+    if ssc and VERSIONS[vi] is not None:
+        sf["VERSION"] = VERSIONS[vi]
+    for k in ("BPMS", "STOPS", "DELAYS", "WARPS"):
+        sf[k] = SF_VALS[k]
+    so = gi("so")
+    if so:
+        sf["OFFSET"] = "" if so == 1 else SF_VALS["OFFSET"]
+    chart, nonempty = None, []
+    if ck == 1:
+        chart = SMChart.blank()
+    elif ck == 2:
+        chart = SSCChart(); chart["STEPSTYPE"] = "dance-single"
+        for i, key in enumerate(TIMING_KEYS):
+            present = {"none-absent": True, "all-absent": False, "one-present": i == j, "one-absent": i != j}[absence]
+            if present:
+                chart[key] = CH_VALS[key] if gb("ne_" + key) else ""
+                if gb("ne_" + key):
+                    nonempty.append(key)
+        co = gi("co")
+        if co:
+            chart["OFFSET"] = "" if co == 1 else CH_VALS["OFFSET"]
+        chart["NOTES"] = "0000"
+    use = ssc and ck == 2 and SPLIT_OK[vi] and bool(nonempty)
+    src = chart if use else sf
+    if data["func"] == "ob_source":
+        got_src = timing_source(sf, chart)
+        td = TimingData(sf, chart)
+        bad = got_src is not src
+        for key in ("BPMS", "STOPS", "DELAYS", "WARPS"):
+            if list(getattr(td, key.lower())) != list(BeatValues.from_str(src.get(key))):
+                bad = True
+        if td.offset != Decimal(src.get("OFFSET") or 0):
+            bad = True
+        return bad, f"simfile={type(sf).__name__} {dict(sf)} chart={None if chart is None else dict(chart)}: source is {'chart' if got_src is chart else 'simfile'}, rule says {'chart' if use else 'simfile'}; TimingData bpms={td.bpms} stops={td.stops} offset={td.offset}"
+    sd, cd, ignore = gi("sd"), gi("cd"), gi("ignore") == 1
+    if DBPM[sd] is not None:
+        sf["DISPLAYBPM"] = DBPM[sd]
+    if ck == 2 and DBPM[cd] is not None:
+        chart["DISPLAYBPM"] = DBPM[cd]
+    if ck == 0:
+        got = displaybpm(sf, ignore_specified=ignore) if gi("noarg") else displaybpm(sf, SSCChart(), ignore_specified=ignore)
+    else:
+        got = displaybpm(sf, chart, ignore_specified=ignore)
+    v = src.get("DISPLAYBPM"); exp = None
+    if v is not None and not ignore:
+        if v == "*":
+            exp = RandomDisplayBPM()
+        else:
+            try:
+                if ":" in v:
+                    a, _, b = v.partition(":"); exp = RangeDisplayBPM(min=Decimal(a), max=Decimal(b))
+                else:
+                    exp = StaticDisplayBPM(value=Decimal(v))
+            except Exception:
+                exp = None
+    if exp is None:
+        bp = [e.value for e in BeatValues.from_str(src["BPMS"])]
+        exp = StaticDisplayBPM(bp[0]) if len(bp) == 1 else RangeDisplayBPM(min=min(bp), max=max(bp))
+    return (type(got) is not type(exp) or got != exp), f"displaybpm = {got!r}, documented {exp!r}; simfile={dict(sf)} chart={None if chart is None else dict(chart)} ignore={ignore}"
 
 
 def main(tier):
-    return xhprop.main(PROP, tier, FILE, obligations(tier), FUNCTIONS, ASSUMPTIONS, OUTSIDE, signature,
-                       bounds="{SM,SSC} x 7 versions x {none, SM chart, SSC chart} x 3^11 timing property states x OFFSET/DISPLAYBPM states x ignore_specified")
+    from vlib import core
+    chk = core.Check(PROP, tier, "harness." + PROP, FUNCTIONS,
+                     bounds="{SM,SSC} x 7 versions x {no chart, SM chart, SSC chart} x emptiness of all present chart timing properties (symbolic) x 4 absence patterns x OFFSET states x 8x8 DISPLAYBPM classes x ignore_specified",
+                     assumptions=ASSUMPTIONS, outside=OUTSIDE)
+    chk.add_results(core.run_obligations("harness." + PROP, obligations(tier)))
+    return chk.finish(signature)
